@@ -198,6 +198,16 @@ class CaseBuilder:
             a = self.rand_frac(-3, 3, (1, 2))
             b = self.rand_frac(1, 3, (1, 2), nz=True)
             pspecs = pspecs[:max(0, len(pspecs) - 1)] + [(('cpair', a, abs(b)), 2)]
+        if opts.get('surd'):
+            # an irreducible quadratic whose roots are NOT in Q(i): poles with square roots
+            while True:
+                c1 = self.rand_frac(-3, 3, (1, 1, 2))
+                c0 = self.rand_frac(-4, 5, (1, 1, 2), nz=True)
+                disc = c1 * c1 - 4 * c0
+                from ratfun_exact import frac_sqrt
+                if frac_sqrt(abs(disc)) is None:
+                    break
+            pspecs = pspecs[:1] + [(('poly', [c0, c1, Fraction(1)]), 1)]
         if opts.get('genpoly'):
             zspecs = [(('poly', [self.rand_frac(-3, 3, (1, 2), nz=True) for _ in range(rng.randint(2, 4))]), 1)]
         # merge duplicate specs (same factor twice -> raise the power)
@@ -352,7 +362,8 @@ class CaseBuilder:
         has_rep_conj = any(s_[0] in ('cpair', 'sympair') and k >= 2 for s_, k in pspecs)
         tags = dict(opts)
         tags.update({'dom': dom, 'repeated_conjugate_poles': has_rep_conj,
-                     'zeros_known': all(s_[0] != 'poly' for s_, k in zspecs), 'poles_known': True})
+                     'zeros_known': all(s_[0] != 'poly' for s_, k in zspecs),
+                     'poles_known': all(s_[0] != 'poly' for s_, k in pspecs)})
         return {'id': idx, 'expr': txt, 'var': vname, 'env': {k: v.ser() for k, v in env.items()},
                 'points': [p.ser() for p in pts], 'rpoints': [p.ser() for p in rpts],
                 'mfactor': mf or (vname + ' + 11'), 'dfactor': dfc,
@@ -381,6 +392,10 @@ def gen_cases(rng, tier):
     for dom, nz_, np_, ex in (('s', 3, 2, True), ('s', 2, 2, False), ('z', 3, 1, True), ('s', 1, 3, True), ('omega', 2, 1, False), ('s', 2, 3, False)):
         plan.append((dom, dict(symbolic=False, delay='none', undef=False, expanded=ex, nz=nz_, np=np_, complex=(dom == 's'), nocommon_origin=True)))
     plan.append(('s', dict(symbolic=True, delay='none', undef=False, expanded=False, nz=1, np=1)))
+    # irrational poles (oracle by exact radical arithmetic; root-free formats still go through Coq)
+    plan.append(('s', dict(symbolic=False, delay='none', undef=False, expanded=False, nz=1, np=1, surd=True)))
+    plan.append(('s', dict(symbolic=False, delay='num', undef=False, expanded=True, nz=1, np=1, surd=True, complex=False)))
+    plan.append(('z', dict(symbolic=False, delay='none', undef=True, expanded=False, nz=2, np=1, surd=True, complex=False)))
     plan.append(('s', dict(symbolic=False, delay='none', undef=False, expanded=False, nz=0, np=0, gain=Fraction(5, 3))))
     plan.append(('s', dict(symbolic=False, delay='num', undef=True, expanded=False, nz=2, np=0)))
     for i in range(n_rand):
@@ -401,6 +416,7 @@ def gen_cases(rng, tier):
             genpoly=(not symbolic) and rng.random() < 0.12,
             symgain=rng.random() < 0.15,
             gain=Fraction(rng.choice([1, 1, 2, 3, -1, -2, 5]), rng.choice([1, 1, 2, 3])),
+            surd=(not symbolic) and rng.random() < 0.08,
             repeated_cpair=(not symbolic) and rng.random() < 0.08)))
     for i, (dom, opts) in enumerate(plan):
         if tier != 'quick':
@@ -974,6 +990,10 @@ def run(tier='quick', replay=None):
                 res.count('undef')
             if t.get('symbolic'):
                 res.count('symbolic')
+            if t.get('surd'):
+                res.count('irrational_poles')
+            if r.get('surd_evals'):
+                res.count('values_by_exact_radical_fallback', r['surd_evals'])
             if t.get('repeated_conjugate_poles'):
                 res.count('repeated_conjugate_poles')
             if not r['m'].get('ND', {}).get('D_is_poly', True):
@@ -1038,6 +1058,22 @@ def run(tier='quick', replay=None):
                     'and option of %d method variants on each; non-trivial = Lcapy accepted the expression as a Ratfun; distinct = distinct (expression text, '
                     'instantiation)') % len(ALL_METHODS)
 
+        if replay:
+            # print the three results for the stored input: implementation, model (Coq), oracle
+            c, r = cases[0], results[0]
+            print('REPLAY input  : %s   env=%s  points=%s' % (c['expr'], c['env'], c['points']))
+            if 'error' in r:
+                print('REPLAY lcapy  : error %s' % r['error'])
+            else:
+                print('REPLAY value  : %s' % r['orig'])
+                focus = replay.get('method')
+                for key, _, _ in c['methods']:
+                    m = r['m'].get(key, {})
+                    if focus and key != focus and public(key) != public(focus):
+                        continue
+                    print('REPLAY lcapy  : %-18s %s' % (key, json.dumps(m)[:300]))
+                print('REPLAY oracle : %s' % ([(k_, pt, w_) for k_, pt, w_ in oracle_case(c, r)] or 'value preserved by every method that returned'))
+                print('REPLAY model  : Coq correspondence checks failing: %s' % ([(idmap[i][1], idmap[i][2]) for i in corr_fail] or 'none'))
         # 4. decide
         fps = set(counter)
         for fp, ce in counter.items():
